@@ -33,7 +33,7 @@ def _unquote_impl(string, only_printable=False, unsafe=None):
         b = HEX_TO_BYTE.get(item[:2])
 
         if b is not None:
-            if only_printable and b < b" ":
+            if only_printable and (b < b" " or b == b"\x7f"):
                 append(b"%")
                 append(item)
             elif unsafe is not None and b in unsafe:
